@@ -1,7 +1,7 @@
 CONSTANTS
   DEVS = {}
   NCalls = 3
-  KindSet = {"meth", "methmut"}
+  KindSet = {"meth", "methmut", "methnr"}
   BodySet <- Bodies_c29
   SpawnSet = {TRUE, FALSE}
 INIT MCInit
